@@ -276,6 +276,26 @@ func clearUnknown(m *pb.Data) {
 	}
 }
 
+// c09OtherWires are unrelated messages decoded after a message under test: block sizes as one packed run (1, 3 and 40
+// entries), unpacked, and a message with inline data, mode and mtime.
+var c09OtherWires = func() [][]byte {
+	packed := func(n int) []byte {
+		var run []byte
+		for i := 0; i < n; i++ {
+			run = wVarint(run, uint64(1000+i*7))
+		}
+		b := wVarint(wTag(nil, 1, 0), 2)
+		b = wVarint(wTag(b, 4, 2), uint64(len(run)))
+		return append(b, run...)
+	}
+	unpacked := wVarint(wTag(nil, 1, 0), 2)
+	for i := 0; i < 5; i++ {
+		unpacked = wVarint(wTag(unpacked, 4, 0), uint64(77+i))
+	}
+	full := []byte{0x08, 0x02, 0x12, 0x04, 'd', 'a', 't', 'a', 0x18, 0x04, 0x38, 0xed, 0x03, 0x42, 0x02, 0x08, 0x05}
+	return [][]byte{packed(1), packed(3), packed(40), unpacked, full}
+}()
+
 // c09CheckData runs every codec claim for one (message, wire) pair.
 func c09CheckData(msg *pb.Data, wire []byte) error {
 	// generator self-check against the reference decoder
@@ -294,6 +314,16 @@ func c09CheckData(msg *pb.Data, wire []byte) error {
 	got := libToPB(d)
 	if !proto.Equal(got, msg) {
 		return fmt.Errorf("library decodes wire %x to {%v}, reference to {%v}", wire, got, msg)
+	}
+	// a decoded message belongs to the caller: decoding other messages afterwards (packed and unpacked block sizes, short
+	// and long runs, with inline data, mtime and mode) must not change it
+	for _, other := range c09OtherWires {
+		if _, err := data.DecodeUnixFSData(other); err != nil {
+			return fmt.Errorf("HARNESS: fixed message %x rejected: %v", other, err)
+		}
+	}
+	if got := libToPB(d); !proto.Equal(got, msg) {
+		return fmt.Errorf("the message decoded from wire %x reads {%v} after other messages were decoded, it was {%v}", wire, got, msg)
 	}
 	// permissions
 	wantPerm := -1
